@@ -264,6 +264,70 @@ pub fn passwords(rng: &mut Rng) -> (String, String) {
     (u, o)
 }
 
+/// A password whose UTF-8 encoding has a `size`-byte character beginning `k` bytes before byte
+/// offset `limit` (32 = the padding/truncation point of Algorithms 2/3 for R2-R4, 127 = the R5/R6
+/// limit): k = 0 the character starts exactly at the limit, k = size it ends exactly there,
+/// 0 < k < size it lies ACROSS the limit.  Always longer than `limit` bytes (k = size: by its tail).
+pub fn boundary_password(limit: usize, size: usize, k: usize, fill: char) -> String {
+    let ch = match size {
+        2 => '\u{e9}',
+        3 => '\u{20ac}',
+        _ => '\u{1f600}',
+    };
+    let mut s: String = std::iter::repeat(fill).take(limit - k).collect();
+    s.push(ch);
+    s.push_str("Zz");
+    s
+}
+
+/// documents dedicated to the truncation points: both passwords are boundary passwords, and every
+/// document is unlocked with the user AND the owner password (doc_cases does that for every spec)
+pub fn boundary_specs(ctx: &Ctx, rng: &mut Rng, out: &mut Vec<Spec>) {
+    let perms = [0xFFFF_FFFCu32, 0xFFFF_F0C4];
+    for strength in 0..4u64 {
+        let limit = if strength == 3 { 127 } else { 32 };
+        // (user (size, k), owner (size, k))
+        let mut pairs: Vec<((usize, usize), (usize, usize))> = vec![];
+        if ctx.thorough() {
+            // every position of every character size, in both roles
+            let all: Vec<(usize, usize)> = (2..=4usize).flat_map(|sz| (0..=sz).map(move |k| (sz, k))).collect();
+            for (i, a) in all.iter().enumerate() {
+                pairs.push((*a, all[(i + 5) % all.len()]));
+            }
+        } else if strength < 3 {
+            // a 2-, 3- and 4-byte character across byte 32 in each role, plus the neighbours
+            let k4 = if rng.chance(1, 2) { 1 } else { 3 };
+            pairs.push(((2, 1), (3, 1)));
+            pairs.push(((3, 2), (4, 2)));
+            pairs.push(((4, k4), (2, 1)));
+            let (a, b) = (rng.range(2, 4) as usize, rng.range(2, 4) as usize);
+            if (ctx.seed + strength) % 2 == 0 {
+                pairs.push(((a, a), (b, 0)));
+            } else {
+                pairs.push(((a, 0), (b, b)));
+            }
+        } else {
+            // R5: the library hashes all bytes on both sides (C06-long-password-r5); still exercised
+            let a = rng.range(2, 4) as usize;
+            let b = rng.range(2, 4) as usize;
+            pairs.push(((a, rng.range(1, a as u64 - 1) as usize), (b, rng.range(1, b as u64 - 1) as usize)));
+            pairs.push(((b, b), (a, 0)));
+        }
+        for (u, o) in pairs {
+            let doc = sample_doc(rng, true);
+            let cfg = *rng.pick(&[0u64, 0, 2]);
+            out.push(Spec {
+                doc,
+                strength,
+                cfg,
+                user: boundary_password(limit, u.0, u.1, 'u'),
+                owner: boundary_password(limit, o.0, o.1, 'o'),
+                perm: *rng.pick(&perms),
+            });
+        }
+    }
+}
+
 fn explore(ctx: &Ctx) {
     let mut rng = Rng::new(ctx.seed);
     for strength in 0..4u64 {
@@ -599,6 +663,7 @@ pub fn gen_specs(ctx: &Ctx) -> Vec<Spec> {
             }
         }
     }
+    boundary_specs(ctx, &mut rng, &mut out);
     out
 }
 
